@@ -115,7 +115,7 @@ type stepMap struct {
 
 func c16Polymod(c *Ctx, fn *ssa.Function) *stepMap {
 	r := c.R
-	in := bitdom.New(c.P.SSA, 64)
+	in := bitdom.New(c.P.SSA, c.wordBits())
 	var chkPhi *ssa.Phi
 	var chkSym *bitdom.BV
 	in.PhiHook = func(phi *ssa.Phi, visit int) (bitdom.Val, bool) {
@@ -132,7 +132,7 @@ func c16Polymod(c *Ctx, fn *ssa.Function) *stepMap {
 			return nil, false
 		}
 		if visit == 1 {
-			chkSym = in.SymBV("chk", 64, 30, true)
+			chkSym = in.SymBV("chk", c.wordBits(), 30, true)
 			return chkSym, false
 		}
 		return nil, true
@@ -155,7 +155,7 @@ func c16Polymod(c *Ctx, fn *ssa.Function) *stepMap {
 	}
 	// expected BIP-173 step on the same variables
 	v := vals.A.Elems[0].(*bitdom.BV)
-	exp := make([]bitdom.Poly, 64)
+	exp := make([]bitdom.Poly, c.wordBits())
 	for i := range exp {
 		exp[i] = bitdom.Zero()
 	}
@@ -175,7 +175,7 @@ func c16Polymod(c *Ctx, fn *ssa.Function) *stepMap {
 	}
 	good := true
 	detail := ""
-	for k := 0; k < 64; k++ {
+	for k := 0; k < c.wordBits(); k++ {
 		if !bitdom.Equal(next.Bits[k], exp[k]) {
 			good = false
 			if detail == "" {
@@ -267,7 +267,7 @@ func c16Expand(c *Ctx, fn *ssa.Function) {
 	bad := 0
 	first := ""
 	for n := 0; n <= 83; n++ {
-		in := bitdom.New(c.P.SSA, 64)
+		in := bitdom.New(c.P.SSA, c.wordBits())
 		s := in.SymSlice("hrp", n, 8, 8, true)
 		ex, err := in.Call(fn, []bitdom.Val{s})
 		if err != nil || ex.Panic {
@@ -341,7 +341,7 @@ func c16Create(c *Ctx, fns *c16Fns) {
 	r.Check(usesExpand, "C16.verify-gate.create-siblings", c.P.Pos(fns.create.Pos()), "createChecksum and verify share the polymod and expansion routines")
 	// decide the digits in the ANF domain for a small instance: hrp of 2 symbolic chars, 3 symbolic data symbols;
 	// result digits must make verify's polymod equal 1: checked by composing with the extracted routines symbolically
-	in := bitdom.New(c.P.SSA, 64)
+	in := bitdom.New(c.P.SSA, c.wordBits())
 	hrp := in.SymSlice("hrp", 2, 8, 8, true)
 	data := in.SymSlice("d", 3, 8, 5, false)
 	ex, err := in.Call(fns.create, []bitdom.Val{hrp, data})
@@ -377,7 +377,7 @@ func c16Create(c *Ctx, fns *c16Fns) {
 		r.Undec("C16.verify-gate.create-term", "", "polymod: %v", err)
 		return
 	}
-	pm := bitdom.BVXor(ex3.Results[0].(*bitdom.BV), bitdom.ConstBV(1, 64, true))
+	pm := bitdom.BVXor(ex3.Results[0].(*bitdom.BV), bitdom.ConstBV(1, c.wordBits(), true))
 	good := true
 	for i := 0; i < 6; i++ {
 		d := chk.A.Elems[chk.Off+i].(*bitdom.BV)
